@@ -208,6 +208,10 @@ fn acts() -> Vec<Act> {
         vec!["ZREM", "z", "a"], vec!["ZREM", "z", "a", "b"], vec!["ZREM", "z", "a", "b", "c", "new"], vec!["ZREM", "z", "nope"], vec!["ZREM", "z"],
         vec!["ZPOPMIN", "z"], vec!["ZPOPMAX", "z"], vec!["ZPOPMIN", "z", "0"], vec!["ZPOPMIN", "z", "2"], vec!["ZPOPMAX", "z", "9"], vec!["ZPOPMIN", "z", "-1"], vec!["ZPOPMAX", "z", "x"],
         vec!["SET", "z", "str"], vec!["DEL", "z"], vec!["LPUSH", "w", "a"],
+        // re-scoring one member between 0 and -0, and scores closer together than f64::EPSILON
+        // (a seeded "score unchanged" shortcut with an absolute tolerance went unnoticed without these)
+        vec!["ZADD", "z", "0", "b"], vec!["ZADD", "z", "-0", "c"], vec!["ZADD", "z", "0.5", "a"], vec!["ZADD", "z", "0.49999999999999994", "b"], vec!["ZADD", "z", "0.4999999999999999", "a"],
+        vec!["ZADD", "z", "5e-324", "c"],
     ] {
         a.push(cmd(&c));
     }
